@@ -34,7 +34,6 @@ struct NioRecvmsgSyscall<I: RecvmsgSyscall> {
 }
 
 impl<I: RecvmsgSyscall> RecvmsgSyscall for NioRecvmsgSyscall<I> {
-    #[allow(clippy::too_many_lines)]
     extern "C" fn recvmsg(
         &self,
         fn_ptr: Option<&extern "C" fn(c_int, *mut msghdr, c_int) -> ssize_t>,
@@ -50,101 +49,78 @@ impl<I: RecvmsgSyscall> RecvmsgSyscall for NioRecvmsgSyscall<I> {
         let mut left_time = recv_time_limit(fd);
         let msghdr = unsafe { *msg };
         let vec = unsafe {
-            Vec::from_raw_parts(
+            std::slice::from_raw_parts(
                 msghdr.msg_iov,
-                msghdr.msg_iovlen.try_into().expect("overflow"),
                 msghdr.msg_iovlen.try_into().expect("overflow"),
             )
         };
-        let mut length = 0;
+        let length: usize = vec.iter().map(|v| v.iov_len).sum();
         let mut received = 0usize;
-        let mut r = 0;
-        let mut index = 0;
-        for iovec in &vec {
-            let mut offset = received.saturating_sub(length);
-            length += iovec.iov_len;
-            if received > length {
-                index += 1;
-                continue;
-            }
-            let mut iov = Vec::new();
-            for i in vec.iter().skip(index) {
-                iov.push(*i);
-            }
-            cfg_if::cfg_if! {
-                if #[cfg(any(
-                    target_os = "linux",
-                    target_os = "l4re",
-                    target_os = "android",
-                    target_os = "emscripten"
-                ))] {
-                    let msg_iovlen = vec.len();
-                } else {
-                    let msg_iovlen = c_int::try_from(iov.len()).unwrap_or_else(|_| {
-                        panic!("{} msghdr.msg_iovlen overflow", crate::common::constants::SyscallName::recvmsg)
-                    });
+        // a zero-length request moves nothing and is not an error
+        let mut r = if length == 0 { 0 } else { -1 };
+        while received < length && left_time > 0 {
+            // hand down exactly what has not been moved yet: the rest of the partly
+            // processed buffer, then the untouched buffers, in order
+            let mut iov = Vec::with_capacity(vec.len());
+            let mut skip = received;
+            for v in vec {
+                if skip >= v.iov_len {
+                    skip -= v.iov_len;
+                    continue;
                 }
+                iov.push(libc::iovec {
+                    iov_base: (v.iov_base as usize + skip) as *mut c_void,
+                    iov_len: v.iov_len - skip,
+                });
+                skip = 0;
             }
-            while received < length && left_time > 0 {
-                if 0 != offset {
-                    iov[0] = libc::iovec {
-                        iov_base: (iov[0].iov_base as usize + offset) as *mut c_void,
-                        iov_len: iov[0].iov_len - offset,
-                    };
-                }
-                let mut arg = msghdr {
-                    msg_name: msghdr.msg_name,
-                    msg_namelen: msghdr.msg_namelen,
-                    msg_iov: iov.as_mut_ptr(),
-                    msg_iovlen,
-                    msg_control: msghdr.msg_control,
-                    msg_controllen: msghdr.msg_controllen,
-                    msg_flags: msghdr.msg_flags,
-                };
-                r = self.inner.recvmsg(fn_ptr, fd, &raw mut arg, flags);
+            let mut arg = msghdr {
+                msg_name: msghdr.msg_name,
+                msg_namelen: msghdr.msg_namelen,
+                msg_iov: iov.as_mut_ptr(),
+                // the count always describes the array that is passed
+                msg_iovlen: iov.len().try_into().unwrap_or_else(|_| {
+                    panic!("{} msghdr.msg_iovlen overflow", crate::common::constants::SyscallName::recvmsg)
+                }),
+                msg_control: msghdr.msg_control,
+                msg_controllen: msghdr.msg_controllen,
+                msg_flags: msghdr.msg_flags,
+            };
+            r = self.inner.recvmsg(fn_ptr, fd, &raw mut arg, flags);
+            if r != -1 {
+                reset_errno();
                 if r == 0 {
-                    std::mem::forget(vec);
-                    if blocking {
-                        set_blocking(fd);
-                    }
-                    return r;
-                } else if r != -1 {
-                    reset_errno();
-                    received += libc::size_t::try_from(r).expect("r overflow");
-                    if received >= length {
-                        r = received.try_into().expect("received overflow");
-                        break;
-                    }
-                    offset = received.saturating_sub(length);
+                    // end of stream
+                    break;
                 }
-                let error_kind = Error::last_os_error().kind();
-                if error_kind == ErrorKind::WouldBlock {
-                    //wait read event
-                    left_time = start_time
-                        .saturating_add(recv_time_limit(fd))
-                        .saturating_sub(now());
-                    let wait_time = std::time::Duration::from_nanos(left_time)
-                        .min(crate::common::constants::SLICE);
-                    if EventLoops::wait_read_event(fd, Some(wait_time)).is_err() {
-                        std::mem::forget(vec);
-                        if blocking {
-                            set_blocking(fd);
-                        }
-                        return r;
-                    }
-                } else if error_kind != ErrorKind::Interrupted {
-                    std::mem::forget(vec);
-                    if blocking {
-                        set_blocking(fd);
-                    }
-                    return r;
-                }
+                received += libc::size_t::try_from(r).expect("r overflow");
+                // like the native call: return what this transfer moved
+                break;
             }
-            if received >= length {
-                index += 1;
+            let error_kind = Error::last_os_error().kind();
+            if error_kind == ErrorKind::WouldBlock {
+                if !blocking {
+                    // the caller made the descriptor non-blocking: report EAGAIN, do not wait
+                    break;
+                }
+                //wait read event
+                left_time = start_time
+                    .saturating_add(recv_time_limit(fd))
+                    .saturating_sub(now());
+                let wait_time = std::time::Duration::from_nanos(left_time)
+                    .min(crate::common::constants::SLICE);
+                if EventLoops::wait_read_event(fd, Some(wait_time)).is_err() {
+                    break;
+                }
+            } else if error_kind != ErrorKind::Interrupted {
+                break;
             }
         }
-        std::mem::forget(vec);
+        if received > 0 {
+            // report the bytes moved, whatever happened afterwards
+            reset_errno();
+            r = received.try_into().expect("received overflow");
+        }
         if blocking {
             set_blocking(fd);
         }
